@@ -254,8 +254,9 @@ func NewTypecast(scope *types.Scope, imports util.ImportNames, t types.Type, inn
 			expr = typ.Obj().Name()
 			break
 		}
-		// If the type is defined within the current package.
-		if scope.Lookup(typ.Obj().Name()) != nil {
+		// If the type is defined within the current package (and is not merely the
+		// namesake of a type the current package declares).
+		if scope.Lookup(typ.Obj().Name()) == typ.Obj() {
 			expr = typ.Obj().Name()
 		} else if pkgName, ok := imports.LookupName(typ.Obj().Pkg().Path()); ok {
 			expr = fmt.Sprintf("%v.%v", pkgName, typ.Obj().Name())
